@@ -1,6 +1,8 @@
 import PbVerif.Lemmas.BSpline
 import PbVerif.Lemmas.Loess
 import PbVerif.Lemmas.Kernels
+import PbVerif.Lemmas.Kernels2
+import PbVerif.Lemmas.Kernels3
 /-! C05 — no input makes the compiled kernels read or write outside their arrays.
 Each theorem: under the precondition the Python callers establish, for ALL sizes and for ARBITRARY
 outcomes of the floating-point comparisons (so NaN, unsorted or repeated values cannot matter),
@@ -66,5 +68,142 @@ theorem rollingStd_inb (n hw : Nat) (h : 1 ≤ n) :
 /-- non-vacuity: the repaired `total_points = N` corner and a NaN-like oracle (every comparison false) -/
 example : (determineFits ⟨fun _ _ => true, fun _ _ _ => false, false⟩ 3 3 true).1 = [(0, 3), (0, 3), (0, 3)] := by decide
 example : (findIntervalT (fun _ => false) (fun _ => false) 3 9 6).2 = [3, 4] := by decide
+
+/-! ## the remaining kernels and the caller lemmas -/
+
+/-- `_numba_banded_dot_banded` (misc.py): under the shapes the wrapper allocates (`BandPre`), every `(row, column)`
+used on `a`, `b` and `c` is non-negative and inside the array — all band counts, all `N`, symmetric or full output.
+In particular `row_c = c_upper + o_c` is never negative although `o_c` starts at `-(a_upper + b_upper)` and
+`c_upper = min(a_upper + b_upper, N - 1)`: the diagonals beyond the matrix have an empty `frame` range. -/
+theorem bandedDotBanded_inb (rowsA colsA rowsB colsB rowsC colsC al au bl bu : Nat) (cu : Int) (n lb : Nat)
+    (h : BandPre rowsA colsA rowsB colsB rowsC colsC al au bl bu cu n lb) :
+    ∀ t ∈ bandDotIdx al au bl bu cu n lb, t.InB rowsA colsA rowsB colsB rowsC colsC :=
+  bandDotIdx_inb rowsA colsA rowsB colsB rowsC colsC al au bl bu cu n lb h
+example : (bandDotIdx 1 1 1 1 2 3 0).length = 12 ∧ BandPre 3 3 3 3 5 3 1 1 1 1 2 3 0 ∧
+    (⟨2, 0, 0, 1, 2, 1⟩ : BandAcc) ∈ bandDotIdx 1 1 1 1 2 3 0 := by decide
+/-- caller lemma: `_banded_dot_banded` establishes `BandPre` for band arrays of `lower + upper + 1` rows, `N ≥ 1`
+columns and full shapes `(N, N)` -/
+theorem pre_bandedDotBanded_of_guards (al au bl bu n : Nat) (sym : Bool) (hn : 1 ≤ n) :
+    BandPre (al + au + 1) n (bl + bu + 1) n (bdbRows al au bl bu n n).toNat n al au bl bu
+      (bdbArgs al au bl bu n n sym).1 n (bdbArgs al au bl bu n n sym).2.2 :=
+  pre_bandedDotBanded_of_wrapper al au bl bu n sym hn
+/-- caller lemma: the three `_banded_dot_banded` calls of `_banded_beads`; the nested call needs
+`num_y ≥ 4·filter_type + 1`, which SciPy's `gbmv` wrapper has enforced before the loop is entered -/
+theorem pre_bandedDotBanded_of_beads_guards (ft n : Nat) (hft : 1 ≤ ft) :
+    (1 ≤ n → BandPre (2 * ft + 1) n (2 * ft + 1) n (bdbRows ft ft ft ft n n).toNat n ft ft ft ft
+        (bdbArgs ft ft ft ft n n true).1 n (bdbArgs ft ft ft ft n n true).2.2) ∧
+    (4 * ft + 1 ≤ n →
+      BandPre (2 * ft + 1) n 5 n (bdbRows ft ft 2 2 n n).toNat n ft ft 2 2
+        (bdbArgs ft ft 2 2 n n false).1 n (bdbArgs ft ft 2 2 n n false).2.2 ∧
+      BandPre (bdbRows ft ft 2 2 n n).toNat n (2 * ft + 1) n (bdbRows (ft + 2) (ft + 2) ft ft n n).toNat n
+        (ft + 2) (ft + 2) ft ft
+        (bdbArgs (ft + 2) (ft + 2) ft ft n n true).1 n (bdbArgs (ft + 2) (ft + 2) ft ft n n true).2.2) :=
+  pre_bandedDotBanded_of_beads ft n hft
+/-- … and that guard is needed: with `num_y = 3`, `filter_type = 1` the nested call would hand a 5-row array as a
+`(3, 3)`-banded matrix (7 rows) -/
+example : ¬ BandPre (bdbRows 1 1 2 2 3 3).toNat 3 3 3
+    (bdbRows 3 3 1 1 3 3).toNat 3 3 3 1 1 (bdbArgs 3 3 1 1 3 3 true).1 3 (bdbArgs 3 3 1 1 3 3 true).2.2 :=
+  beads_third_call_needs_guard
+
+/-- `_quadratic_bezier_spline` (and `_quadratic_bezier`, whose three reads `y_points[0..2]` are of a 3-element list):
+control indices inside `x` and non-decreasing ⇒ every scalar index on `x`, `y`, `indices` is inside its array, no
+slice is clipped (so `output[lo:hi] = f(x[lo:hi])` has matching lengths), and every `argmin` sees a non-empty slice —
+for EVERY outcome of `argmin` and of the `right_x - left_x == 0` test, every number of control points, every `N` -/
+theorem bezierSpline_inb {N ny : Nat} {ix : List Int} (h : BezPre N ix) (am : Nat → Nat) (eq : Nat → Bool) :
+    ∀ e ∈ bezierTrace N ny ix am eq, e.Ok N ny ix.length := bezierTrace_ok h am eq
+/-- `_quadratic_bezier(y_points, t)`: both call sites pass the 3-element list `[left_y, center_y, right_y]` -/
+theorem quadraticBezier_inb : ∀ i ∈ quadBezierIdx, 0 ≤ i ∧ i < (([0, 0, 0] : List Rat).length : Int) := by decide
+/-- the precondition is decidable as stated (what the harness' pre-monitor evaluates) -/
+theorem bezPre_decidable (N : Nat) (ix : List Int) : bezPreB N ix = true ↔ BezPre N ix := bezPreB_iff N ix
+example : bezPreB 8 [0, 2, 4, 5, 7] = true ∧
+    bezierTrace 8 8 [0, 2, 4, 5, 7] (fun k => [1, 0, 9].getD k 0) (fun _ => false) =
+      [.ix 1, .ix 2, .ix 0, .x 0, .x 2, .am 2 5, .x 4, .x 3, .ix 0, .y 0, .y 2, .y 4, .x 4, .xs 0 5, .os 0 5,
+       .ix 3, .x 4, .am 4 6, .x 5, .x 4, .y 4, .y 5, .x 5, .xs 3 5, .os 3 5,
+       .ix (-2), .y 5, .ix (-1), .y 7, .xs 4 8, .ix (-1), .x 7, .os 4 8] := by decide
+/-- the hypothesis matters: with decreasing control indices `np.argmin` gets an empty slice -/
+example : bezPreB 8 [0, 5, 3, 7] = false ∧
+    ¬ (∀ e ∈ bezierTrace 8 8 [0, 5, 3, 7] (fun _ => 0) (fun _ => false), e.Ok 8 8 4) := by decide
+/-- caller lemma, `corner_cutting`: `indices = np.flatnonzero(mask)` for a mask with one entry per data point -/
+theorem pre_bezierSpline_of_guards (mask : List Bool) : BezPre mask.length (flatnonzero mask) :=
+  pre_bezierSpline_of_flatnonzero mask
+example : flatnonzero [true, false, true, true, false, true] = [0, 2, 3, 5] := by decide
+
+/-- `_interp_inplace(x, y, …)` with `len(x) = len(y) ≥ 1`: `x[0]`, `x[-1]` exist, the slice assignment
+`y[1:-1] = f(x[1:-1])` has matching lengths -/
+theorem interpInplace_inb (nx ny : Nat) (h1 : 1 ≤ nx) (hxy : nx = ny) :
+    (∀ i ∈ interpScalarIdx, -(nx : Int) ≤ i ∧ i < nx) ∧ (interpSliceLens nx ny).1 = (interpSliceLens nx ny).2 :=
+  interpInplace_inb' nx ny h1 hxy
+example : interpSliceLens 5 5 = (3, 3) ∧ interpSliceLens 1 1 = (0, 0) ∧ interpSliceLens 5 4 = (2, 3) := by decide
+/-- caller lemma, `_fill_skips`: each skip range of `_determine_fits` gives in-range scalar reads of `baseline` and two
+equally long slices of ≥ 2 points for `_interp_inplace` (which therefore satisfies `interpInplace_inb`'s hypotheses) -/
+theorem pre_interpInplace_of_guards (o : Oracle) (n tp : Nat) (check : Bool) (hn : 1 ≤ n) :
+    ∀ s ∈ (determineFits o n tp check).2.2,
+      (∀ i ∈ (fillSkipsCall n n (s.1 : Int) (s.2 : Int)).1, 0 ≤ i ∧ i < (n : Int)) ∧
+      (fillSkipsCall n n (s.1 : Int) (s.2 : Int)).2.1 = (fillSkipsCall n n (s.1 : Int) (s.2 : Int)).2.2 ∧
+      2 ≤ (fillSkipsCall n n (s.1 : Int) (s.2 : Int)).2.1 := pre_interpInplace_of_fillSkips' o n tp check hn
+example : fillSkipsCall 9 9 2 6 = ([2, 5], 4, 4) := by decide
+/-- caller lemma, the other caller of `_interp_inplace` — `_averaged_interp` with `_find_peak_segments` (golotvin, dietrich,
+std_distribution, fastchrom, cwt_br, fabc, rubberband): for EVERY Boolean mask the `(start, end)` pairs satisfy
+`0 ≤ start ≤ end ≤ N - 1`, so `x[start:end+1]` and `output[start:end+1]` are unclipped, equally long and non-empty -/
+theorem pre_interpInplace_of_averagedInterp (mask : List Bool) :
+    ∀ p ∈ averagedInterpCalls mask, 0 ≤ p.1 ∧ p.1 ≤ p.2 ∧ p.2 < (mask.length : Int) ∧
+      1 ≤ sliceLen p.1 (p.2 + 1) mask.length ∧ ((sliceLen p.1 (p.2 + 1) mask.length : Nat) : Int) = p.2 + 1 - p.1 := by
+  intro p hp
+  have h1 := averagedInterp_calls_inb mask p hp
+  have h2 := pre_interpInplace_of_averagedInterp' mask p hp
+  exact ⟨h1.1, h1.2.1, h1.2.2, h2.2.1, h2.2.2⟩
+example : averagedInterpCalls [false, false, true, false, true, true, false] = [(0, 2), (2, 4), (5, 6)] ∧
+    averagedInterpCalls [false, false] = [(0, 1)] ∧ averagedInterpCalls [true, true] = [] := by decide
+
+/-- `_loess_solver(AT, b)`: with `AT : m × w` and `len(b) = w` both products are conformable, every element read by
+them is inside its array, and `np.linalg.solve` gets an `m × m` system -/
+theorem loessSolver_inb (m w wb : Nat) (h : w = wb) :
+    loessSolverShape m w wb = some m ∧ (∀ p ∈ (loessSolverIdx m w).1, p.1 < m ∧ p.2 < w) ∧
+    ∀ k ∈ (loessSolverIdx m w).2, k < wb := loessSolver_inb' m w wb h
+example : loessSolverShape 2 3 3 = some 2 ∧ loessSolverShape 2 3 4 = none ∧ (loessSolverIdx 2 3).2 = [0, 1, 2, 0, 1, 2] := by decide
+/-- caller lemma for `_loess_solver` and the scalar indices of `_loess_low_memory` / `_loess_first_loop` /
+`_loess_nonfirst_loops`: a window of exactly `total_points ≥ 1` indices inside `[0, N)` (`loessWindows_inb`) and a fit
+index in `[0, N)` (`determineFits_inb`) give slices of `total_points` elements, a kernel row of that length,
+conformable solver arguments, and `difference[0]`, `difference[-1]`, `x[i]`, `vander[i]`, `coefs[i]`, `kernels[i]` in range -/
+theorem pre_loessSolver_of_guards (N po tp : Nat) (cached : Bool) (i left right : Int)
+    (hl : 0 ≤ left) (hr : right ≤ N) (hw : right - left = tp) (htp : 1 ≤ tp) (hi : 0 ≤ i ∧ i < N) :
+    (loessIter N po tp cached i left right).wlen = tp ∧
+    (loessIter N po tp cached i left right).kernelLen = tp ∧
+    (loessIter N po tp cached i left right).solver = some (po + 1) ∧
+    (∀ d ∈ (loessIter N po tp cached i left right).diffIdx, -(tp : Int) ≤ d ∧ d < tp) ∧
+    0 ≤ (loessIter N po tp cached i left right).rowIdx ∧ (loessIter N po tp cached i left right).rowIdx < N :=
+  pre_loessSolver_of_window' N po tp cached i left right hl hr hw htp hi
+/-- the repaired corner: the window `(-1, N-1)` (before fix dc14c47) gives a clipped, EMPTY slice — `difference[0]` out of bounds -/
+example : (loessIter 3 1 3 false 1 0 3).solver = some 2 ∧ (loessIter 3 1 3 false 1 (-1) 2).wlen = 0 := by decide
+/-- caller lemma, `loess`: the `raise` guards give `1 ≤ total_points ≤ N` -/
+theorem pre_loess_of_guards (N : Nat) (tp po : Int) (h : loessGuards N tp po = true) :
+    1 ≤ tp ∧ tp ≤ N ∧ 1 ≤ N ∧ ((tp.toNat : Nat) : Int) = tp := pre_loess_of_guards' N tp po h
+example : loessGuards 5 5 2 = true ∧ loessGuards 5 6 2 = false ∧ loessGuards 5 0 (-1) = false ∧ loessGuards 5 2 2 = false := by decide
+
+/-- caller lemma, P-spline family: `num_knots ≥ 2` ⇒ `degree < num_bases`, `knots.size = num_bases + degree + 1` — the
+hypotheses of `findInterval_inb`, `deBoor_inb`, `designMatrix_inb`, `btbBty_inb` -/
+theorem pre_spline_of_guards (a b : Rat) (nk deg : Nat) (h : 2 ≤ nk) :
+    deg < (splineKnots a b nk deg).length - (deg + 1) ∧
+    (splineKnots a b nk deg).length = ((splineKnots a b nk deg).length - (deg + 1)) + deg + 1 ∧
+    (splineKnots a b nk deg).length - (deg + 1) = nk + deg - 1 := pre_spline_of_guards' a b nk deg h
+example : (splineKnots 0 1 2 3).length = 8 := by decide
+/-- caller lemma, `peak_filling` (scalar `sections`; array-valued `sections` never reach the compiled kernel):
+`1 ≤ data_len ≤ len(y_truncated)`, half window `≥ 0`, hence all indices inside `y_truncated` for every later half window too -/
+theorem pre_dirMinMovingAvg_of_guards (sections : Int) (lp rp : Nat) (halfWin : Int)
+    (hs : 1 ≤ sections) (hh : 1 ≤ halfWin) :
+    1 ≤ (peakFillingArgs sections lp rp halfWin).2.1 ∧
+    (peakFillingArgs sections lp rp halfWin).2.1 ≤ (peakFillingArgs sections lp rp halfWin).1 ∧
+    0 ≤ (peakFillingArgs sections lp rp halfWin).2.2 ∧
+    ∀ hw : Nat, ∀ i ∈ dirMinMovAvgIdx (peakFillingArgs sections lp rp halfWin).2.1.toNat hw,
+      0 ≤ i ∧ i < (peakFillingArgs sections lp rp halfWin).1 :=
+  pre_dirMinMovingAvg_of_guards' sections lp rp halfWin hs hh
+example : peakFillingArgs 2 1 1 7 = (4, 2, 0) ∧ peakFillingArgs 9 0 1 3 = (10, 9, 3) := by decide
+/-- caller lemma, `_padded_rolling_std` (std_distribution, fastchrom): a successful `np.pad(data, half_window, 'reflect')`
+hands `_rolling_std` `N + 2·half_window` points, `N ≥ 1`, `half_window ≥ 0`: all its indices are inside -/
+theorem pre_rollingStd_of_guards (n : Nat) (hw L : Int) (h : paddedLen n hw = some L) :
+    0 ≤ hw ∧ 1 ≤ n ∧ L = ((n + 2 * hw.toNat : Nat) : Int) ∧
+    (∀ i ∈ rollingStdDataIdx (n + 2 * hw.toNat) hw.toNat, 0 ≤ i ∧ i < L) ∧
+    (∀ i ∈ rollingStdSqIdx (n + 2 * hw.toNat) hw.toNat, 0 ≤ i ∧ i < L) := pre_rollingStd_of_guards' n hw L h
+example : paddedLen 4 3 = some 10 ∧ paddedLen 4 (-1) = none ∧ paddedLen 0 2 = none := by decide
 
 end PbVerif.C05
